@@ -13,6 +13,7 @@ import (
 	"bytes"
 	"context"
 	"fmt"
+	"math/bits"
 	"strings"
 	"time"
 
@@ -125,7 +126,7 @@ func tmRow(r *rng, charset int) ([]byte, []tmRun, *tmRowSpec) {
 			case 1:
 				pos := []byte{0x23, 0x24, 0x40, 0x5b, 0x5c, 0x5d, 0x5e, 0x5f, 0x60, 0x7b, 0x7c, 0x7d, 0x7e}
 				c = pos[r.intn(len(pos))]
-				if (charset == 0 || charset == 7) && englishAmbiguous[c] {
+				if charset == 7 && englishAmbiguous[c] {
 					c = 'e'
 				}
 			default:
@@ -193,6 +194,58 @@ func tmTokenize(cells []byte) *tmRowSpec {
 		sp.Segs = append(sp.Segs, g)
 	}
 	return sp
+}
+
+// Hamming 24/18 (ETS 300 706, 8.3), the harness's own encoder: 18 data bits -> the 24-bit word (bit i = position i+1),
+// parity bits at the positions 1, 2, 4, 8, 16 and 24, every parity odd
+func ham2418Word(d uint32) uint32 {
+	pos := []uint{3, 5, 6, 7, 9, 10, 11, 12, 13, 14, 15, 17, 18, 19, 20, 21, 22, 23}
+	var w uint32
+	for k, p := range pos {
+		w |= (d >> uint(k) & 1) << (p - 1)
+	}
+	for i := uint(0); i < 5; i++ {
+		par := uint32(1)
+		for p := uint(1); p <= 23; p++ {
+			if p>>i&1 == 1 {
+				par ^= w >> (p - 1) & 1
+			}
+		}
+		w |= par << (1<<i - 1)
+	}
+	par := uint32(1)
+	for p := uint(1); p <= 23; p++ {
+		par ^= w >> (p - 1) & 1
+	}
+	return w | par<<23
+}
+
+// the three bytes of a triplet as they travel in the PES payload: first transmitted bit most significant
+func tripletBytes(w uint32) []byte {
+	return []byte{bits.Reverse8(byte(w)), bits.Reverse8(byte(w >> 8)), bits.Reverse8(byte(w >> 16))}
+}
+
+// the first triplet of an X/28 / M/29 packet as an encoder emits it: page function (X/28 format 1: 0) and coding, the
+// character set designation in the data bits 8..14, the rest; sometimes with one bit inverted on the way (corrected) or
+// two (rejected: the packet is then ignored)
+func designationTriplet(r *rng, key int, format1 bool, kinds map[string]int) []byte {
+	d := uint32(r.intn(1<<18)) &^ 0x3f8f
+	d |= uint32(key&15)<<10 | uint32(r.intn(8))<<7
+	if !format1 {
+		d |= uint32(1 + r.intn(15))
+	}
+	w := ham2418Word(d)
+	switch r.intn(6) {
+	case 0:
+		kinds["triplet-single-error"]++
+		w ^= 1 << uint(r.intn(24))
+	case 1:
+		kinds["triplet-double-error"]++
+		p := r.intn(24)
+		q := (p + 1 + r.intn(23)) % 24
+		w ^= 1<<uint(p) | 1<<uint(q)
+	}
+	return tripletBytes(w)
 }
 
 // ---- units ------------------------------------------------------------------------------------------------
@@ -315,28 +368,25 @@ func tmBenign(r *rng, mag int, kinds map[string]int) []byte {
 		if tmDesignations && r.chance(2, 3) {
 			dc = []uint8{0, 4}[r.intn(2)]
 		}
-		t := []byte{0, 0, 0}
-		if dc == 0 || dc == 4 {
-			// triplet bits 7..13 (character set designation) stay 0; X/28: format 1 only is looked at at all
-			t[0] = byte(r.intn(2)) << 6
-			t[1] = byte(r.intn(4)) << 6
-			t[2] = byte(r.intn(256))
-			if tmDesignations && r.chance(1, 2) {
-				// a real designation: the last one of the stream decides the character set of every page
-				kinds["X/28,M/29 designation"]++
-				t[1] |= byte([]int{1, 2, 3, 4, 6, 8, 10, 5}[r.intn(8)]) << 2
-			}
-			if pk == 28 && r.chance(1, 2) {
-				t[0] |= byte(1 + r.intn(15)) // other formats: ignored whatever they designate
-				t[1] = byte(r.intn(256))
-			}
-		} else {
+		key := 0 // the default character set designation
+		if (dc == 0 || dc == 4) && tmDesignations && r.chance(1, 2) {
+			// a real designation: the last one of the stream decides the character set of every page
+			kinds["X/28,M/29 designation"]++
+			key = []int{1, 2, 3, 4, 6, 8, 10, 5}[r.intn(8)]
+		}
+		// X/28: format 1 only is looked at at all; other formats may designate what they like
+		format1 := !(pk == 28 && r.chance(1, 3))
+		if !format1 {
+			key = r.intn(16)
+		}
+		t := designationTriplet(r, key, format1, kinds)
+		if dc != 0 && dc != 4 && r.chance(1, 2) {
 			t = []byte{byte(r.intn(256)), byte(r.intn(256)), byte(r.intn(256))}
 		}
 		m := mag
 		if r.chance(1, 4) {
 			m = otherMag(r, mag)
-			t = []byte{byte(r.intn(256)), byte(r.intn(256)), byte(r.intn(256))}
+			t = designationTriplet(r, r.intn(16), true, kinds)
 		}
 		return dataUnit(0x03, m, pk, append([]byte{ham84(dc)}, t...))
 	case 9:
@@ -712,11 +762,10 @@ func genTmCase(r *rng, wild bool) *tmCase {
 			case 0:
 				pk := 28 + r.intn(2)
 				dc := []uint8{0, 4, 0, 4, 1}[r.intn(5)]
-				tr := uint32(r.intn(16))<<10 | uint32(r.intn(8))<<7
-				if r.chance(1, 4) {
-					tr |= uint32(r.intn(16))
+				u := dataUnit(0x03, mag, pk, append([]byte{ham84(dc)}, designationTriplet(r, r.intn(16), r.chance(3, 4), map[string]int{})...))
+				if r.chance(1, 6) {
+					u = dataUnit(0x03, mag, pk, []byte{ham84(dc), byte(r.intn(256)), byte(r.intn(256)), byte(r.intn(256))})
 				}
-				u := dataUnit(0x03, mag, pk, []byte{ham84(dc), byte(tr), byte(tr >> 8), byte(tr >> 16)})
 				if len(d.Data) == 0 {
 					d.Data = []byte{0x10}
 				}
@@ -1016,6 +1065,34 @@ func tmTS(pid uint16, ds []tmDelivery) ([]byte, error) {
 		}
 	}
 	return out.Bytes(), nil
+}
+
+// the reader's Hamming 24/18 decoder (hook) against the Coq one (Model/TtxHam.v), and the harness's encoder against
+// the Coq encoder: code words, every single and double error of sampled code words, random 24-bit words
+func suiteTeletextHamming(R *runner, r *rng) {
+	R.rule("Hamming 24/18: teletextHamming2418Decode (hook) vs the Coq decoder on code words of random data, on all 24 single and sampled double errors of them and on random 24-bit words; the harness's encoder vs the Coq encoder; non-trivial = the word decodes")
+	N := 40
+	if R.tier == "thorough" {
+		N = 600
+	}
+	one := func(w uint32, group string) {
+		v := astisub.VerifTeletextHamming2418(byte(w), byte(w>>8), byte(w>>16))
+		R.add(&obs{Suite: "ttxham", Group: group, Input: (&enc{}).i(int64(w)).String(), Impl: (&enc{}).opt(v).String(), NT: v >= 0})
+	}
+	for c := 0; c < N; c++ {
+		d := uint32(r.intn(1 << 18))
+		w := ham2418Word(d)
+		R.add(&obs{Suite: "ttxhamenc", Group: "ttx.ham.enc", Input: (&enc{}).i(int64(d)).String(), Impl: (&enc{}).i(int64(w)).String(), NT: true})
+		one(w, "ttx.ham.codeword")
+		for p := uint(0); p < 24; p++ {
+			one(w^1<<p, "ttx.ham.single")
+			q := (p + 1 + uint(r.intn(23))) % 24
+			one(w^1<<p^1<<q, "ttx.ham.double")
+		}
+		for k := 0; k < 20; k++ {
+			one(uint32(r.intn(1<<24)), "ttx.ham.random")
+		}
+	}
 }
 
 func suiteTeletextModel(R *runner, r *rng) {
